@@ -123,7 +123,7 @@ CLAIMED["C14"] = dict(
          "(scripted connector completing before / at / after the timeout or never, literal and host-name destinations, HTTP/1.1 and "
          "HTTP/2; response and drop of the attempt). TLS-handshake timeout and the reverse-proxy session timer: observed on the live listener "
          "(suite c14live, wall clock). QUIC connection timers: closest_not_after_any_deadline, tick_recomputes, tick_handles_expired, "
-         "wake_up_makes_progress about the multiplexer's deadline bookkeeping (TT/Model/QuicTimers.lean), tied by replaying the operations "
+         "wake_up_makes_progress, one_deadline_per_connection, arm_replaces, removed_has_no_deadline, tick_without_rearm_drops_expired about the multiplexer's deadline bookkeeping (TT/Model/QuicTimers.lean), tied by replaying the operations "
          "the real multiplexer performed under live HTTP/3 sessions (suite c14qt).",
     note="Trusted: Lean kernel, harness/door, tokio's paused clock and timer wheel; with a real clock timers fire late by scheduling "
          "latency (not modelled). Release of sockets/tasks on timeout = drop of the futures (Rust ownership), observed only as "
